@@ -19,7 +19,9 @@ RULE = (
     "(fickling.load; always_check_safety() + pickle.load with/without threshold; the safety "
     "context manager; the global hook after an inner context has exited; an outer context after "
     "a nested one has exited; a context after an ML-environment activate/deactivate cycle) x injected fault (none; the analysis call made by the loader raising "
-    "ValueError / KeyError / AttributeError / RecursionError / MemoryError). Oracle: verdict v "
+    "ValueError / KeyError / AttributeError / RecursionError / MemoryError) x unpickler keyword "
+    "arguments (none, encoding=latin1/bytes, fix_imports=False, errors=strict; compared with the "
+    "stock unpickler under the same arguments). Oracle: verdict v "
     "taken separately, ranks by own table; returned => rank(v) <= rank(T), value and sink log "
     "equal to the stock unpickler's on the same bytes; rank(v) > rank(T) => UnsafeFileError with "
     "info['severity'] == v; where the path honours T, rank(v) <= rank(T) => returns; every "
@@ -60,6 +62,13 @@ FLAGGED = (
     b"(cverif_sink\nsink\nS'tag5'\no.",
     b"cverif_sink\nsink\n)\x81.",
 )
+PY2_STYLE = (
+    b"\x80\x02U\x03abcq\x00.",  # SHORT_BINSTRING: str or bytes depending on `encoding`
+    b"c__builtin__\nset\nq\x00]q\x01K\x01a\x85q\x02Rq\x03.",  # needs fix_imports to resolve
+    b"\x80\x02]q\x00(U\x01aU\x02bce.",
+    b"(lp0\nS'x'\np1\naS'y'\np2\na.",
+)
+KWARGS = ({}, {}, {}, {"encoding": "latin1"}, {"encoding": "bytes"}, {"fix_imports": False}, {"errors": "strict"})
 ANALYSIS_RAISES = (
     b"",
     b"garbage!",
@@ -195,13 +204,13 @@ def verdict_of(data):
         return ("raises", type(e).__name__)
 
 
-def stock(data):
+def stock(data, kwargs=None):
     """what the stock unpickler does with the (harmless) bytes: (value, sink log) or None"""
     import verif_sink
 
     verif_sink.reset()
     try:
-        v = env_orig_loads(data)
+        v = env_orig_loads(data, **(kwargs or {}))
     except Exception:  # noqa: BLE001
         verif_sink.reset()
         return None
@@ -210,10 +219,10 @@ def stock(data):
     return v, log
 
 
-def env_orig_loads(data):
+def env_orig_loads(data, **kwargs):
     from vlib import env
 
-    return env.PICKLE_ORIG[1](data)
+    return env.PICKLE_ORIG[1](data, **kwargs)
 
 
 def make_stream(kind, data, scratch, flip_to=None):
@@ -236,7 +245,7 @@ def make_stream(kind, data, scratch, flip_to=None):
     raise ValueError(kind)
 
 
-def run_case(data, stream_kind, threshold, path, fault, scratch, flip_to=None):
+def run_case(data, stream_kind, threshold, path, fault, scratch, flip_to=None, kwargs=None):
     """returns (Failure|None, klass)"""
     import pickle as pk
 
@@ -247,10 +256,13 @@ def run_case(data, stream_kind, threshold, path, fault, scratch, flip_to=None):
     from fickling.exception import UnsafeFileError
 
     case = {"hex": data.hex(), "stream": stream_kind, "threshold": threshold, "path": path,
-            "fault": fault, "flip_to": flip_to.hex() if flip_to else None}  # fmt: skip
+            "fault": fault, "flip_to": flip_to.hex() if flip_to else None, "kwargs": kwargs or {}}  # fmt: skip
+    kwargs = dict(kwargs or {})
+    if path in ("context", "outer_context_after_inner", "context_after_ml_cycle"):
+        kwargs = {}  # the context manager's wrapper is not part of what is varied here
     reset_pickle_bindings()
     v = verdict_of(data)
-    want = stock(data) if v[0] == "ok" else None
+    want = stock(data, kwargs) if v[0] == "ok" else None
     T = getattr(Severity, threshold)
     src, fh = make_stream(stream_kind, data, scratch, flip_to)
     mon = Monitor.get()
@@ -273,13 +285,13 @@ def run_case(data, stream_kind, threshold, path, fault, scratch, flip_to=None):
         with mon.watch() as events:
             try:
                 if path == "loader":
-                    r = fickling.load(src, max_acceptable_severity=T)
+                    r = fickling.load(src, max_acceptable_severity=T, **kwargs)
                 elif path == "hook":
                     fickling.always_check_safety()
-                    r = pk.load(src)
+                    r = pk.load(src, **kwargs)
                 elif path == "hook_threshold":
                     fickling.always_check_safety()
-                    r = pk.load(src, max_acceptable_severity=T)
+                    r = pk.load(src, max_acceptable_severity=T, **kwargs)
                 elif path == "context":
                     with fickling.check_safety():
                         r = pk.load(src)
@@ -288,7 +300,7 @@ def run_case(data, stream_kind, threshold, path, fault, scratch, flip_to=None):
                     fickling.always_check_safety()
                     with fickling.check_safety():
                         pass
-                    r = pk.load(src)
+                    r = pk.load(src, **kwargs)
                 elif path == "outer_context_after_inner":
                     with fickling.check_safety():
                         with fickling.check_safety():
@@ -400,6 +412,7 @@ def replay(case):
         return run_case(
             bytes.fromhex(case["hex"]), case["stream"], case["threshold"], case["path"],
             case["fault"], scratch, bytes.fromhex(case["flip_to"]) if case.get("flip_to") else None,
+            case.get("kwargs"),
         )[0]  # fmt: skip
 
 
@@ -415,7 +428,7 @@ def _payloads():
     trailing = st.tuples(st.one_of(nat, flagged), st.one_of(flagged, nat, st.binary(max_size=6))).map(
         lambda t: t[0] + t[1]
     )
-    return st.one_of(nat, flagged, flagged, raises, trunc, trailing)
+    return st.one_of(nat, flagged, flagged, raises, trunc, trailing, st.sampled_from(PY2_STYLE))
 
 
 def _case_strategy():
@@ -434,8 +447,8 @@ def _case_strategy():
             mal = MALICIOUS[:-1] + b"0" * (n - len(MALICIOUS)) + b"." if n > len(MALICIOUS) else MALICIOUS
             mal = b"cverif_sink\nsink\n(S'pwn'\ntR" + b"N0" * ((n - len(MALICIOUS)) // 2) + b"."
             data = benign_same_length(len(mal))
-            return (data, stream, T, path, fault, mal)
-        return (draw(_payloads()), stream, T, path, fault, None)
+            return (data, stream, T, path, fault, mal, {})
+        return (draw(_payloads()), stream, T, path, fault, None, draw(st.sampled_from(KWARGS)))
 
     return case()
 
@@ -450,8 +463,8 @@ def run_shard(spec, seed):
     with Scratch("c02") as scratch:
 
         def body(case):
-            data, stream, T, path, fault, flip_to = case
-            f, klass = run_case(data, stream, T, path, fault, scratch, flip_to)
+            data, stream, T, path, fault, flip_to, kw = case
+            f, klass = run_case(data, stream, T, path, fault, scratch, flip_to, kw)
             v = verdict_of(data)
             nt = (
                 stream in ("flip", "non_seekable")
@@ -460,7 +473,7 @@ def run_shard(spec, seed):
                 or (v[0] == "ok" and v[1] != "LIKELY_SAFE")
             )
             res.note(
-                (data.hex(), stream, T, path, fault),
+                (data.hex(), stream, T, path, fault, sorted(kw.items())),
                 nt,
                 klass=[klass, "stream:" + stream, "path:" + path, "verdict:" + v[1]],
                 sample={"hex": data.hex(), "stream": stream, "T": T, "path": path, "fault": fault},
